@@ -65,7 +65,7 @@ def is_value(v, depth=0):
     return True
 
 
-def contained(what, thunk, detail):
+def contained(what, thunk, detail, recursion_escapes=False):
     """Run thunk(); anything other than the documented exceptions is a violation bucketed by root cause."""
     try:
         return ('ok', thunk())
@@ -73,7 +73,11 @@ def contained(what, thunk, detail):
         return ('runtime-error', str(e))
     except impl.bs.ParserError as e:
         return ('parser-error', str(e))
-    except RecursionError:
+    except RecursionError as e:
+        if recursion_escapes:
+            # recursion of script functions: the interpreter's call wrapper turns the host's RecursionError into a failed
+            # call (null); it must not reach the embedding application
+            raise Violation('%s: RecursionError escaped to the embedding application' % what, detail, 'escaped:RecursionError') from e
         return ('recursion', None)
     except Exception as e:  # pylint: disable=broad-except
         where = innermost_repo_frame(e)
@@ -163,12 +167,16 @@ def check_library_call(name, args, debug=True):
         raise Violation('%s(...) ended the script with %s %r instead of evaluating to null' % (name, res[0], res[1]), d, 'call-aborts:' + name)
     if not is_value(res[1]):
         raise Violation('%s(...) returned %r, which is not a BareScript value' % (name, res[1]), d, 'not-a-value:' + name)
-    failed = [m for m in log if isinstance(m, str) and m.startswith('BareScript: Function "')]
+    all_failed = [m for m in log if isinstance(m, str) and m.startswith('BareScript: Function "')]
+    # functions that evaluate expressions or call back (data*, arraySort, ...) may log failures of the inner calls too
+    failed = [m for m in all_failed if m.startswith('BareScript: Function "%s" failed with error: ' % name)]
     if 'after' not in log:
         raise Violation('execution did not continue after %s(...)' % name, d, 'no-continue:' + name)
+    if any(' failed with error: ' not in m for m in all_failed):
+        raise Violation('%s(...) malformed failure log %r' % (name, all_failed), d, 'failure-log:' + name)
     if failed:
-        if len(failed) != 1 or not failed[0].startswith('BareScript: Function "%s" failed with error: ' % name):
-            raise Violation('%s(...) failure logged as %r' % (name, failed), d, 'failure-log:' + name)
+        if len(failed) != 1:
+            raise Violation('%s(...) failure logged %d times: %r' % (name, len(failed), failed), d, 'failure-log:' + name)
         want = FAILURE_VALUES.get(name)
         ok = res[1] is None or (want is not None and res[1] == want and type(res[1]) is type(want))
         if name == 'objectGet' and len(args) >= 3:
@@ -274,6 +282,69 @@ def check_host_failures(kinds, in_function, nested, debug):
         raise Violation('log is %r, expected %r' % (got_log, exp_log), d, 'host-log' + ('-debug' if debug else '-nodebug'))
 
 
+# ---- (e) deep and unbounded recursion of script functions ---------------------------------------------------------------
+
+RECURSION_SHAPES = {
+    'direct': """function rec(n):
+    if n > 0:
+        return rec(n - 1) + 1
+    endif
+    return 0
+endfunction
+{use}
+""",
+    'mutual': """function isEven(n):
+    if n == 0:
+        return true
+    endif
+    return isOdd(n - 1)
+endfunction
+function isOdd(n):
+    if n == 0:
+        return false
+    endif
+    return isEven(n - 1)
+endfunction
+function rec(n):
+    return isEven(n)
+endfunction
+{use}
+""",
+    'in-arguments': """function rec(n):
+    return if(n > 0, mathMax(0, rec(n - 1)) + 1, 0)
+endfunction
+{use}
+""",
+    'unbounded': """function rec(n):
+    return rec(n + 1)
+endfunction
+{use}
+""",
+}
+RECURSION_USES = ['return rec({n})', "xx = rec({n})\nsystemLog('after')\nreturn stringNew(xx)", 'return arrayNew(rec({n}), rec(3))']
+
+
+def check_recursion(shape, use, n, debug, via_expression):
+    src = RECURSION_SHAPES[shape].format(use=RECURSION_USES[use].format(n=n))
+    d = {'kind': 'recursion', 'shape': shape, 'use': use, 'n': n, 'debug': debug, 'via_expression': via_expression, 'source': src}
+    log = []
+    opts = {'globals': {}, 'logFn': log.append, 'maxStatements': 200000}
+    if debug:
+        opts['debug'] = True
+    model = impl.parse_valid(src, d)
+    res = contained('recursive script (depth %s)' % n, lambda: impl.bs.execute_script(model, opts), d, True)
+    if res[0] == 'ok' and not is_value(res[1]):
+        raise Violation('recursive script returned %r' % (res[1],), d, 'not-a-value')
+    if via_expression and shape != 'unbounded':
+        expr = impl.bs.parse_expression('rec(%d) + 1' % n)
+        res2 = contained('expression calling a recursive script function', lambda: impl.bs.evaluate_expression(expr, opts), d, True)
+        if res2[0] == 'ok' and not is_value(res2[1]):
+            raise Violation('expression returned %r' % (res2[1],), d, 'not-a-value')
+    if shape != 'unbounded' and n <= 50 and res != ('ok', {0: float(n), 1: None, 2: None}.get(use, None)) and use == 0 and shape == 'direct':
+        raise Violation('rec(%d) = %r' % (n, res), d, 'recursion-value')
+    return res
+
+
 # ---- (d) programs with adversarial globals --------------------------------------------------------------------------
 
 def check_program(src, g):
@@ -282,7 +353,7 @@ def check_program(src, g):
     g2 = copy.copy(g)
     g2['probe'] = make_probe(log)
     g2['cc'] = make_cc(log, [True, False])
-    model = impl.bs.parse_script(src)
+    model = impl.parse_valid(src, d)
     res = contained('program', lambda: impl.bs.execute_script(model, {'globals': g2, 'logFn': lambda m: None, 'maxStatements': 5000}), d)
     if res[0] == 'ok' and not is_value(res[1]):
         raise Violation('program returned %r, which is not a BareScript value' % (res[1],), d, 'not-a-value')
@@ -301,6 +372,7 @@ def plan(tier):
     kk = 6 if tier == 'quick' else 16
     specs += [{'kind': 'calls', 'n': 900 if tier == 'quick' else 30000, 'k': i, 'names': names[i::kk]} for i in range(kk)]
     specs += [{'kind': 'host', 'n': 1200 if tier == 'quick' else 20000, 'k': 0}]
+    specs += [{'kind': 'recursion', 'part': i, 'parts': 3} for i in range(3)]
     specs += [{'kind': 'programs', 'n': 500 if tier == 'quick' else 10000, 'k': i} for i in range(4 if tier == 'quick' else 8)]
     return specs
 
@@ -342,6 +414,20 @@ def run_shard(ctx, spec):
             ctx.case(digest(enc([name, args, debug])), failed, ['fn:%s:%s' % (name, 'failed' if failed else 'ok'), 'debug' if debug else 'no-debug'],
                      {'fn': name, 'args': args})
         run_hypothesis(ctx, cprop, [call()], spec['n'], salt=20 + spec['k'], rounds=4)
+        return
+    if spec['kind'] == 'recursion':
+        depths = [3, 40, 150, 400, 1200, 4000] if ctx.tier == 'quick' else [3, 40, 150, 400, 800, 1200, 2500, 4000, 9000]
+        cases = [(sh, u, n, dbg, ve) for sh in RECURSION_SHAPES for u in range(len(RECURSION_USES)) for n in depths for dbg in (False, True) for ve in (False, True)]
+        for ix in range(spec['part'], len(cases), spec['parts']):
+            sh, u, n, dbg, ve = cases[ix]
+            if sh == 'unbounded' and n != depths[0]:
+                continue
+            try:
+                r = check_recursion(sh, u, n, dbg, ve)
+            except Violation as v:
+                ctx.violation(v)
+                continue
+            ctx.case(digest([sh, u, n, dbg, ve]), n >= 400 or sh == 'unbounded', ['recursion:' + sh, 'recursion-outcome:' + r[0]], {'shape': sh, 'depth': n})
         return
     if spec['kind'] == 'host':
         def hprop(kinds, in_function, nested, debug):
@@ -419,6 +505,8 @@ def replay(detail):
         check_adv_expression(detail['text'], dec(detail['globals'], fns))
     elif k == 'call':
         check_library_call(detail['fn'], dec(detail['args'], fns))
+    elif k == 'recursion':
+        check_recursion(detail['shape'], detail['use'], detail['n'], detail['debug'], detail['via_expression'])
     elif k == 'host':
         check_host_failures(detail['kinds'], detail['in_function'], detail['nested'], detail['debug'])
     else:
